@@ -17,7 +17,14 @@ RULE = ("(1) value tables: Nodes.typed_value on every text of length <= 3 over a
         "real evaluator on a twin, set_value(mustexist=True) runs on the real document, and the WHOLE document afterwards "
         "(canonical form incl. anchors) must equal the Lean specification setSpec (proved equal to the model); a quarter of the "
         "cases are also dumped with yamlpath's editor and reloaded with its strict loader and the data compared; "
-        "(3) histories of <= 8 (quick) / <= 30 (thorough) mixed set / delete / create steps compared after every step and at the end.  "
+        "(3) histories of <= 8 (quick) / <= 30 (thorough) mixed set / delete / create steps compared after every step and at the end; "
+        "(4) real code only (merge keys are outside the model): seeded YAML texts with merge keys (1-3 anchored source maps "
+        "holding plain and anchored scalars, nested maps/lists, sources merging sources; consumers merging one or several "
+        "sources at the top level and inside a list, own keys overriding inherited ones, aliases of the anchored scalars "
+        "under keys and in lists, aliases of whole source maps), loaded with the tool's loader, x a set at the own key / "
+        "index of up to 6 scalars per document (anchored ones first): the physical document (own keys in order, merge "
+        "references, anchors, container sharing) is as before except the matched scalar and the scalars carrying its anchor, "
+        "which hold the new value; dump + strict reload gives the same physical document.  "
         "distinct_nontrivial = distinct single edits that changed >= 1 node + distinct histories with >= 2 effective steps.")
 
 FMT_RELOADABLE = {"DEFAULT", "DQUOTE", "SQUOTE", "BOOLEAN", "FLOAT", "INT"}
@@ -90,6 +97,9 @@ def run(chk: core.Check):
         quick = chk.tier == "quick"
         cases += gen_cases(rng, 12000 if quick else 200000)
         cases += gen_histories(rng, 2500 if quick else 40000, 8 if quick else 30)
+        mcases = gen_merge_cases(rng, 1200 if quick else 20000)
+        chk.extra_cov["merge_key_document_cases"] = len(mcases)
+        cases += mcases
         rng.shuffle(cases)
         chunks = core.chunked(cases, 64)
     results = core.pmap(_job, chunks)
@@ -198,6 +208,297 @@ def table_check(chk):
     chk.exhaustive = True
 
 
+# --------------------------------------------------------------------------- documents with YAML merge keys (real code only)
+#
+# Merge keys (`<<: *anchor`) are outside the Lean model.  The clauses of the property are judged directly on the real
+# code, on the PHYSICAL document: every mapping's own keys (`non_merged_items`, in order) with their values, its merge
+# references (which mappings it includes, in order), every sequence, every anchor, and which containers are shared.
+# After a set at an own key / index: the matched scalar and - if it carries an anchor - every scalar carrying that
+# anchor hold the new value (anchor kept), everything else is exactly as before; the dump with the tool's editor reloads
+# with its strict loader to the same physical document.
+
+MK_KEYS = ["a", "b", "c", "k", "t"]
+MK_VALUES = [("int", 5), ("int", 1), ("int", 0), ("int", -3), ("str", "new"), ("str", "a"), ("str", "b x")]
+
+
+def gen_merge_text(rng):
+    """YAML text of a document with merge keys: 1-3 anchored source maps (scalars, some with an anchor of their own, a
+    nested map or list now and then, a source may itself merge an earlier one), consumers merging one or several
+    sources (at the top level and as elements of a list) with own keys that may override inherited ones, aliases of
+    the anchored scalars under keys and inside lists, and an alias of a whole source map now and then."""
+    lines = ["---"]
+    sanchors = []           # anchors of scalars defined so far
+    sources = []            # anchors of source maps defined so far
+    counter = [0]
+
+    def scalar(allow_anchor=True, allow_alias=True):
+        r = rng.random()
+        if allow_alias and sanchors and r < 0.25:
+            return "*" + rng.choice(sanchors)
+        v = rng.choice(["1", "1", "2", "3", "a", "b", "k", "30", "x y", "true"])
+        if allow_anchor and r > 0.55:
+            name = "s%d" % counter[0]
+            counter[0] += 1
+            sanchors.append(name)
+            return "&%s %s" % (name, v)
+        return v
+
+    def body(ind, nkeys, avoid=()):
+        ks = rng.sample([k for k in MK_KEYS if k not in avoid] or MK_KEYS, nkeys)
+        for k in ks:
+            r = rng.random()
+            if r < 0.12:
+                lines.append("%s%s:" % (ind, k))
+                for k2 in rng.sample(MK_KEYS, rng.randint(1, 2)):
+                    lines.append("%s  %s: %s" % (ind, k2, scalar()))
+            elif r < 0.22:
+                lines.append("%s%s: [%s]" % (ind, k, ", ".join(scalar() for _ in range(rng.randint(1, 3)))))
+            else:
+                lines.append("%s%s: %s" % (ind, k, scalar()))
+
+    def merge_line(ind):
+        if len(sources) > 1 and rng.random() < 0.35:
+            picks = rng.sample(sources, 2)
+            lines.append("%s<<: [%s]" % (ind, ", ".join("*" + a for a in picks)))
+        else:
+            lines.append("%s<<: *%s" % (ind, rng.choice(sources)))
+
+    for i in range(rng.randint(1, 3)):
+        lines.append("base%d: &m%d" % (i, i))
+        if sources and rng.random() < 0.4:
+            merge_line("  ")
+        body("  ", rng.randint(1, 3))
+        sources.append("m%d" % i)
+    for i in range(rng.randint(1, 3)):
+        lines.append("svc%d:" % i)
+        where = rng.random()
+        if where < 0.5:
+            merge_line("  ")
+        body("  ", rng.randint(0, 2))
+        if where >= 0.5:
+            merge_line("  ")
+    if rng.random() < 0.6:
+        lines.append("items:")
+        for i in range(rng.randint(1, 3)):
+            if rng.random() < 0.8:
+                lines.append("  - <<: *%s" % rng.choice(sources))
+                lines.append("    n: %s" % scalar())
+            else:
+                lines.append("  - %s" % scalar())
+    for i in range(rng.randint(0, 2)):
+        lines.append("top%d: %s" % (i, scalar(allow_anchor=False)))
+    if rng.random() < 0.3:
+        lines.append("copy: *%s" % rng.choice(sources))
+    if rng.random() < 0.4:
+        lines.append("al: [%s]" % ", ".join(scalar(allow_anchor=False) for _ in range(rng.randint(1, 3))))
+    return "\n".join(lines) + "\n"
+
+
+def mk_load(text):
+    from yamlpath.common import Parsers
+    (data, ok) = Parsers.get_yaml_data(Parsers.get_yaml_editor(), core.quiet_logger(), text, literal=True)
+    return data if ok else None
+
+
+def mk_phys(root, anchors=True):
+    """The physical document as a table of containers (numbered in first-visit order; a shared container appears once):
+    mapping = own keys in order with their values + merge references + anchor, sequence = items + anchor;
+    scalars inline as [canonical value, anchor]."""
+    from ruamel.yaml.comments import CommentedMap, CommentedSeq
+    ids, out = {}, []
+
+    def visit(n):
+        if isinstance(n, (CommentedMap, CommentedSeq)):
+            if id(n) in ids:
+                return ["ref", ids[id(n)]]
+            i = ids[id(n)] = len(out)
+            out.append(None)
+            if isinstance(n, CommentedMap):
+                merges = [visit(m[1]) for m in getattr(n, "merge", [])]
+                own = [[codec.key_to_json(k), visit(v)] for k, v in n.non_merged_items()]
+                out[i] = {"t": "map", "anchor": codec.anchor_of(n) if anchors else None, "merge": merges, "own": own}
+            else:
+                out[i] = {"t": "seq", "anchor": codec.anchor_of(n) if anchors else None, "items": [visit(v) for v in n]}
+            return ["ref", i]
+        if isinstance(n, (dict, list, set)):
+            raise codec.OutOfModel("plain container")
+        return ["s", codec.scalar_to_json(n), codec.anchor_of(n) if anchors else None]
+    visit(root)
+    return out
+
+
+def mk_slots(table):
+    """Every scalar position: (container number, 'own'|'items', position in that list)."""
+    for ci, c in enumerate(table):
+        fld = "own" if c["t"] == "map" else "items"
+        for pi, e in enumerate(c[fld]):
+            val = e[1] if fld == "own" else e
+            if val[0] == "s":
+                yield ci, fld, pi, val
+
+
+def mk_paths(table):
+    """A path text (own keys and indexes from the root) to every container."""
+    paths = {0: ""}
+    todo = [0]
+    while todo:
+        ci = todo.pop(0)
+        c = table[ci]
+        ents = [(k, v) for k, v in c["own"]] if c["t"] == "map" else list(enumerate(c["items"]))
+        for ref, v in ents:
+            if v[0] == "ref" and v[1] not in paths:
+                paths[v[1]] = (paths[ci] + "[%d]" % ref) if c["t"] == "seq" else ((paths[ci] + "." if paths[ci] else "") + str(ref))
+                todo.append(v[1])
+    return paths
+
+
+def mk_slot_path(table, paths, ci, fld, pi):
+    if ci not in paths:
+        return None
+    if fld == "items":
+        return paths[ci] + "[%d]" % pi
+    return (paths[ci] + "." if paths[ci] else "") + str(table[ci]["own"][pi][0])
+
+
+def gen_merge_cases(rng, ndocs):
+    cases = []
+    for _ in range(ndocs):
+        text = gen_merge_text(rng)
+        doc = mk_load(text)
+        if doc is None:
+            continue
+        try:
+            table = mk_phys(doc)
+        except codec.OutOfModel:
+            continue
+        paths = mk_paths(table)
+        slots = [(ci, fld, pi, val) for ci, fld, pi, val in mk_slots(table) if val[1]["k"] != "null"]
+        anchored = [sl for sl in slots if sl[3][2]]
+        picks = rng.sample(anchored, min(3, len(anchored))) + rng.sample(slots, min(3, len(slots)))
+        for ci, fld, pi, _ in picks:
+            path = mk_slot_path(table, paths, ci, fld, pi)
+            if path is None:
+                continue
+            v = rng.choice(MK_VALUES)
+            cases.append({"merge": True, "text": text, "path": path, "slot": [ci, fld, pi], "v": [v[0], v[1]]})
+    return cases
+
+
+def mk_masked(table, targets):
+    out = json.loads(json.dumps(table))
+    for ci, fld, pi in targets:
+        if ci < len(out) and pi < len(out[ci].get(fld, [])):
+            if fld == "own":
+                out[ci]["own"][pi][1] = "TARGET"
+            else:
+                out[ci]["items"][pi] = "TARGET"
+    return out
+
+
+def mk_describe(before, after):
+    """Which part of the frame differs: signature + text."""
+    if len(before) != len(after):
+        return "merge-doc:containers-added-or-removed", "%d containers before, %d after" % (len(before), len(after))
+    for ci, (b, a) in enumerate(zip(before, after)):
+        if b == a:
+            continue
+        if b["t"] != a["t"]:
+            return "merge-doc:container-kind-changed", "container %d" % ci
+        if b["t"] == "map":
+            if [k for k, _ in b["own"]] != [k for k, _ in a["own"]]:
+                return ("merge-doc:own-keys-changed", "mapping #%d owned the keys %s, now %s" % (
+                    ci, [k for k, _ in b["own"]], [k for k, _ in a["own"]]))
+            if b["merge"] != a["merge"]:
+                return "merge-doc:merge-references-changed", "mapping #%d: %s -> %s" % (ci, b["merge"], a["merge"])
+        elif len(b["items"]) != len(a["items"]):
+            return "merge-doc:sequence-length-changed", "sequence #%d" % ci
+        if b["anchor"] != a["anchor"]:
+            return "merge-doc:container-anchor-changed", "container #%d: %s -> %s" % (ci, b["anchor"], a["anchor"])
+        return "merge-doc:bystander-changed", "container #%d: %s -> %s" % (ci, json.dumps(b)[:200], json.dumps(a)[:200])
+    return "merge-doc:differs", ""
+
+
+def merge_case(case, bump, viol, keys):
+    from yamlpath import Processor
+    text, path, v = case["text"], case["path"], case["v"][1]
+    doc = mk_load(text)
+    if doc is None:
+        bump("merge-doc:skipped-does-not-load")
+        return
+    before = mk_phys(doc)
+    ci, fld, pi = case["slot"]
+    try:
+        c = before[ci]
+        node = c["own"][pi][1] if fld == "own" else c["items"][pi]
+        assert node[0] == "s"
+    except Exception:
+        bump("merge-doc:skipped-slot-not-a-scalar")
+        return
+    # the matched node and, if it is anchored, every scalar carrying its anchor
+    targets = [(ci, fld, pi)]
+    if node[2]:
+        targets += [(c2, f2, p2) for c2, f2, p2, val in mk_slots(before) if val[2] == node[2] and (c2, f2, p2) != (ci, fld, pi)]
+    proc = Processor(core.quiet_logger(), doc)
+    res = ed.guarded(lambda: proc.set_value(path, v, mustexist=True))
+    rep = dict(case)
+    what = "set_value(%s, %r) on a document with merge keys" % (path, v)
+    bump("merge-doc:impl:" + res[0].split(":")[0])
+    bump("merge-doc:targets:%d" % min(len(targets), 4))
+    if res[0] == "timeout":
+        viol.append(("timeout", what + " did not finish", rep))
+        return
+    if res[0] != "ok":
+        viol.append(("merge-doc:%s@%s" % (res[0], res[1]), what + " raised %s (%s)" % (res[0], res[1]), rep))
+        return
+    after = mk_phys(proc.data)
+    mb, ma = mk_masked(before, targets), mk_masked(after, targets)
+    if mb != ma:
+        sig, detail = mk_describe(mb, ma)
+        viol.append((sig, what + ": the rest of the document is not as before (%s)\n%s" % (detail, text), rep))
+        return
+    want = codec.scalar_to_json(v)
+    for (c2, f2, p2) in targets:
+        got = after[c2]["own"][p2][1] if f2 == "own" else after[c2]["items"][p2]
+        old = before[c2]["own"][p2][1] if f2 == "own" else before[c2]["items"][p2]
+        if got[0] != "s" or got[1] != want:
+            viol.append(("merge-doc:target-not-updated", what + ": %s of container #%d holds %s, expected %s\n%s" % (
+                f2, c2, got, want, text), rep))
+            return
+        if got[2] != old[2]:
+            viol.append(("merge-doc:target-anchor-changed", what + ": anchor %s -> %s\n%s" % (old[2], got[2], text), rep))
+            return
+    keys.append(_key({"doc": text, "path": path, "v": case["v"]}))
+    # dump + strict reload: the same physical document (anchor names aside; which containers are shared is compared)
+    if mk_roundtrip(mk_load(text)) != "ok":
+        bump("merge-doc:reload:skipped-original-does-not-roundtrip")
+        return
+    rt = mk_roundtrip(proc.data)
+    bump("merge-doc:reload:" + rt.split("\n")[0])
+    if rt != "ok":
+        viol.append(("merge-doc:reload:" + rt.split("\n")[0], what + ": the edited document does not dump + reload to the same data\n" + rt[:600], rep))
+
+
+def mk_roundtrip(data):
+    import io
+    from yamlpath.common import Parsers
+    buf = io.StringIO()
+    try:
+        Parsers.get_yaml_editor().dump(data, buf)
+    except Exception as e:  # noqa
+        return "dump-failed\n" + type(e).__name__
+    try:
+        back = mk_load(buf.getvalue())
+    except Exception as e:  # noqa
+        return "reload-crashed\n" + type(e).__name__ + "\n" + buf.getvalue()
+    if back is None:
+        return "reload-failed\n" + buf.getvalue()
+    try:
+        same = mk_phys(back, anchors=False) == mk_phys(data, anchors=False)
+    except codec.OutOfModel:
+        return "ok"
+    return "ok" if same else "data-differs\n" + buf.getvalue()
+
+
 # --------------------------------------------------------------------------- single edits
 
 def real_set(j, path, v, fmt, reload_leg):
@@ -234,6 +535,13 @@ def _job(cases):
         stats[k] = stats.get(k, 0) + 1
     pend = []
     for case in cases:
+        if case.get("merge"):
+            stats["n"] += 1
+            try:
+                merge_case(case, bump, viol, keys)
+            except codec.OutOfModel:
+                stats["oom"] += 1
+            continue
         if case.get("history"):
             stats["n"] += 1
             try:
